@@ -259,6 +259,8 @@ func fmtInt(w io.Writer, v interface{}, base, padLen int) {
 		uval = v.(uint64)
 	case uintptr:
 		uval = uint64(v.(uintptr))
+	case uint:
+		uval = uint64(v.(uint))
 	case int8:
 		sval = int64(v.(int8))
 	case int16:
